@@ -227,6 +227,25 @@ func Open(dir string, opts ...walOpt) (*WAL, error) {
 	// don't need to jump through the mutateState hoops yet!
 	w.s.Store(&newState)
 
+	if recoveredTail {
+		// We may have crashed after the append (or truncation) that sealed the
+		// tail was made durable but before the rotation to a new tail segment was
+		// committed to metaDB. Nothing else will ever trigger that rotation and a
+		// sealed tail refuses all appends, so complete it now.
+		sealed, indexStart, err := newState.tail.Sealed()
+		if err != nil {
+			return nil, err
+		}
+		if sealed {
+			w.writeMu.Lock()
+			err := w.rotateSegmentLocked(indexStart)
+			w.writeMu.Unlock()
+			if err != nil {
+				return nil, err
+			}
+		}
+	}
+
 	// Delete any unused segment files left over after a crash.
 	w.deleteSegments(toDelete)
 
